@@ -750,7 +750,67 @@ class SymExec:
             self.step(s, work)
             if len(self.paths) + len(work) > self.max_paths:
                 raise PathLimit("%s: more than %d paths" % (self.body.key, self.max_paths))
+        self.drain_loops()
         return self.paths
+
+    def drain_loops(self):
+        """`while let Some(x) = v.next_square() { v ^= x.bitboard(); .. }` (v a local set, every iteration removes exactly
+        the element it took and nothing else touches v) visits each member of v's initial value once, like `for x in v`:
+        such loops are re-expressed in the terms the engine uses for iteration (`next(S)`, `elem(S)`)."""
+        NS = BB + "::next_square"
+        b = self.body
+        cands = {}
+        for p in self.paths:
+            for (fid, hdr), snap in p.pre_loop.items():
+                if fid != 0:
+                    continue
+                for (lname, path), oldv in snap.items():
+                    if path or lname.startswith("_") or lname.startswith("*") or oldv is None:
+                        continue
+                    cands.setdefault((hdr, lname), oldv)
+        for (hdr, lname), S0 in cands.items():
+            H = ("hv", b.key.rsplit("::", 1)[-1], lname, hdr)
+            ns = ("call", NS, (H,))
+            X = ("field", ("downcast", ns, "Some"), "0")
+            removed = (("xor", H, ("bbof", X)), ("xor", ("bbof", X), H), ("and", H, ("not", ("bbof", X))), ("and", ("not", ("bbof", X)), H))
+            idx = [i for i in range(len(b.locals)) if b.local_name(i) == lname]
+            if len(idx) != 1:
+                continue
+            back = [p for p in self.paths if p.end == "loopback" and p.end_bb == hdr and (0, hdr) in p.pre_loop]
+            if not back or not all(p.store.get(("L", 0, idx[0])) in removed for p in back):
+                continue
+            if not all(any(c[0] == ("discr", ns) and c[1] == 1 for c in p.conds) for p in back):
+                continue
+            memo = {}
+
+            def sub(e):
+                if not isinstance(e, tuple):
+                    return e
+                r = memo.get(e)
+                if r is None:
+                    if e == X:
+                        r = ("elem", S0)
+                    elif e == ns:
+                        r = ("next", S0)
+                    else:
+                        r = tuple(sub(x) for x in e)
+                    memo[e] = r
+                return r
+            for p in self.paths:
+                if (0, hdr) not in p.pre_loop:
+                    continue
+                p.conds = [(sub(c[0]),) + tuple(c[1:]) for c in p.conds]
+                p.ret = sub(p.ret) if p.ret is not None else None
+                for e in p.events:
+                    if e.args:
+                        e.args = [sub(a) for a in e.args] if isinstance(e.args, list) else tuple(sub(a) for a in e.args)
+                    if e.ret is not None:
+                        e.ret = sub(e.ret)
+                for root in list(p.store):
+                    if root != ("L", 0, idx[0]):
+                        p.store[root] = sub(p.store[root])
+                    elif p.store[root] in removed:
+                        p.store[root] = H          # the drained set plays the part of the iterator: not an effect of the body
 
     def finish(self, st, end, ret=None):
         self.paths.append(Path(st.conds, st.events, ret, end, st.store, st.frames[0].bb if st.frames else -1,
@@ -1034,15 +1094,29 @@ class SymExec:
             tag = fr.body.key.rsplit("::", 1)[-1]
             snap = {}
             for l in sorted(locs, key=repr):
+                base_path = ()
                 if isinstance(l, tuple):
                     root = l
                     lname = "*" + l[1]
+                    if fr.fid != 0:
+                        # a loop in an inlined callee writing through one of its reference parameters: the place written
+                        # is whatever that parameter points to in the caller
+                        pv = None
+                        for i_ in range(1, fr.body.argc + 1):
+                            if fr.body.local_name(i_) == l[1]:
+                                pv = st.store.get(("L", fr.fid, i_))
+                        if pv is not None and pv[0] == "ptr":
+                            root, base_path = pv[1], tuple(pv[2])
+                        else:
+                            mem = True          # unknown target: everything reachable through the entry's &mut parameters
+                            continue
                 else:
                     root = ("L", fr.fid, l)
                     lname = fr.body.local_name(l)
                 paths = locs[l]
                 if () in paths:
                     paths = {()}
+                paths = {base_path + tuple(pth) for pth in paths}
                 for path in sorted(paths):
                     old = st.store.get(root)
                     if old is not None and path:
@@ -1063,6 +1137,7 @@ class SymExec:
                     else:
                         base = old if old is not None else ("undef", root)
                         st.store[root] = self.ops.update(base, path, newv)
+            snap[("_fn", ())] = ("fn", fr.body.key)       # which function's loop this is (frame numbers differ between paths)
             st.pre_loop = dict(st.pre_loop)
             st.pre_loop[(fr.fid, bb)] = snap
             if mem:
